@@ -23,6 +23,11 @@ import (
 // final runs step 6 of the episode: quiesce, final sync, oracles A/B, Close, probes C.
 func (h *harness) final(ctx context.Context, ws *writerSet) {
 	store := h.store
+	if n := h.listFaults.Load(); n > 0 {
+		h.mu.Lock()
+		h.dist["fault/listfail-hit"] = int(n)
+		h.mu.Unlock()
+	}
 
 	// Default order: bring every path back (registered + enabled + connection
 	// initialised) while the writers still hold their connections, then stop
